@@ -142,6 +142,7 @@ def showEv : Ev → String
   | .delivered k => "delivered " ++ toString k
   | .dropped k => "dropped " ++ toString k
   | .expired k => "expired " ++ toString k
+  | .lent key o => "lent " ++ showVal key ++ " o" ++ toString o
   | .cleaned => "cleaned"
   | .ended cls => "ended " ++ cls
 
